@@ -378,6 +378,13 @@ def check_depth_limit(rep, tier, seed):
     tiny = "4k3/8/8/p1p1p1p1/PpPpPpPp/1P1P1P1P/8/4K3 w - - 0 1"
     cases.append(["new " + tiny, "obs", "ttnew", "search - %d 0" % (30000 if tier == "quick" else 3000000)])
     cases.append(["new 8/8/8/8/8/5k2/7p/7K b - - 0 1", "obs", "ttnew", "search - %d 0" % (20000 if tier == "quick" else 1000000)])
+    # a depth-limited search at EVERY game length up to the guard (a limit derived from the length of the game, a narrow
+    # counter, a stack bound that bites at one particular ply count): random legal games, fresh positions at every ply
+    for w in range(2 if tier == "quick" else 10):
+        ops = ["new " + roots.START, "obs", "ttnew"]
+        for k in range(398):
+            ops += ["pushh %d" % r.randrange(1 << 30), "search %d -1 0" % (2 if k % 2 else 1)]
+        cases.append(ops)
     stats, kinds = Counter(), Counter()
     rust, lean = run_pair(rep, cases, profile="checked")
     first = correspondence(rep, "C08", cases, rust, lean, stats)
@@ -385,6 +392,8 @@ def check_depth_limit(rep, tier, seed):
         for oi, op in enumerate(case):
             if not op.startswith("search "):
                 continue
+            if rust[ci][oi] is None and len(case) > 100:
+                continue        # a long game that ended early (mate, stalemate): the remaining operations were not run
             infos, res = parse_search(rust[ci][oi])
             stats["searches"] += 1
             a = op.split()
